@@ -4,7 +4,8 @@
 //! reference connection model predicts every response and where the connection closes.
 
 use crate::common::http::{parse_response, Framing, RefResponse, RespParse};
-use crate::common::net::{connect_retry, start_app, RunningApp};
+use crate::common::net::connect_retry;
+use crate::common::net_app::{start_app, RunningApp};
 use crate::common::refs::parse_imf_fixdate;
 use crate::engine::{hash_of, pt, show, Ctx, Fail, Lcg};
 use humphrey::http::cors::Cors;
